@@ -584,6 +584,15 @@ func (g *Gen) runPass() {
 		name := "|free." + fv.Name() + "|"
 		g.declare(name, so)
 		g.vals[fv] = T{S: name, So: so, GoT: fv.Type()}
+		// captured variables are cells: the contract refers to their entry values by name
+		if pt, ok := fv.Type().Underlying().(*types.Pointer); ok {
+			lv := g.resolveAddr(fv, st)
+			if lv.kind == lvCell {
+				t := T{S: g.stGet(st, lv.heap, lv.hso), So: lv.so, GoT: pt.Elem()}
+				g.assumeTypeInv(t, st)
+				g.paramEnv[fv.Name()] = t
+			}
+		}
 	}
 	g.stGet(st, "alloc", SMath)
 	g.assume(app(">=", st["alloc"], "0"))
@@ -778,6 +787,7 @@ func (g *Gen) execBlock(b *ssa.BasicBlock, initial State) {
 	}
 	g.reach[b] = reach
 	g.curMods = map[string]*Sort{}
+	g.applyVolatile(st)
 	for _, in := range b.Instrs {
 		g.execInstr(in, st, reach)
 	}
@@ -871,7 +881,12 @@ func (g *Gen) loopModSet(li *loopInfo) map[string]*Sort {
 				}
 				continue
 			}
-			mods[n] = so
+			if so == nil {
+				so = g.stSorts[n]
+			}
+			if so != nil {
+				mods[n] = so
+			}
 		}
 	}
 	return mods
